@@ -168,7 +168,7 @@ impl Part for Main {
         15
     }
     fn cases(&self, tier: Tier) -> u32 {
-        tier.pick(25_000, 400_000)
+        tier.pick(60_000, 400_000)
     }
     fn strategy(&self, tier: Tier) -> BoxedStrategy<Case> {
         let depth = tier.pick(2, 3);
@@ -196,7 +196,7 @@ impl Part for OrderMixed {
         "order-mixed-kinds"
     }
     fn cases(&self, tier: Tier) -> u32 {
-        tier.pick(1500, 40_000)
+        tier.pick(4000, 40_000)
     }
     fn replay_repeats(&self) -> u32 {
         25
@@ -251,7 +251,7 @@ impl Part for CompositeKeys {
         "composite-keys"
     }
     fn cases(&self, tier: Tier) -> u32 {
-        tier.pick(1500, 40_000)
+        tier.pick(5000, 40_000)
     }
     fn replay_repeats(&self) -> u32 {
         5
@@ -369,7 +369,7 @@ impl Part for GraphVarTerm {
         "graph-var-term"
     }
     fn cases(&self, tier: Tier) -> u32 {
-        tier.pick(1500, 40_000)
+        tier.pick(5000, 40_000)
     }
     fn replay_repeats(&self) -> u32 {
         5
